@@ -184,6 +184,42 @@ func (ex *Exec) callValue(st *State, fr *Frame, c *ssa.CallCommon, fnv Value, ar
 				if ci != nil && m == "Store" && len(args) == 3 {
 					ex.emit(st, "pre", ex.srcLabel(fr.Fn, pos, "syncmap-store"), ex.syncMapFact(st, fr, ci, args[1], args[2], c.Args[2]), pos, mergeProps(ex.topProps(st), ci.Props))
 				}
+				if m == "Range" && len(args) == 2 {
+					// Range(f): f runs once per entry. f must be under contract and promise nothing (no ensures):
+					// its precondition is checked for an arbitrary entry (one satisfying the table's content
+					// clause) in the state before the first call and again in a state in which everything f may
+					// modify has been given up - which covers every later call; afterwards that state remains.
+					var cb *ssa.Function
+					switch f := args[1].(type) {
+					case *ClosureV:
+						cb = f.Fn
+					case FuncV:
+						cb = f.Fn
+					}
+					var csp *FuncSpec
+					if cb != nil {
+						csp = ex.Specs.Funcs[specName(cb)]
+					}
+					if csp == nil || len(csp.Ensures) > 0 || csp.Inline {
+						tool("Range over a viewed sync.Map needs a callback under contract, without ensures")
+					}
+					kt := types.Universe.Lookup(sv.Key).Type()
+					for i := 0; i < 2; i++ {
+						kf := freshValue("rangekey", kt)
+						ex.assumeInv(st, kt, kf)
+						kv := ex.makeIface(st, kf, kt)
+						ev := IfaceV{Fresh("rangetag", SInt), Fresh("rangeval", SInt)}
+						for _, f := range typeInv(types.NewInterfaceType(nil, nil), ev, nil) {
+							st.assume(f)
+						}
+						if ci != nil {
+							st.assume(ex.syncMapFact(st, fr, ci, kv, ev))
+						}
+						ex.applyContract(st, fr, csp, cb, cb.Signature, []Value{kv, ev}, pos, "")
+					}
+					setRes(TupleV{})
+					return false
+				}
 				res := ex.syncViewCall(st, fr, sv, tn, fa, m, args, pos)
 				if tv, ok := res.(TupleV); ok && len(tv.V) == 2 && ci != nil {
 					st.assume(Implies(tv.V[1].(Scalar).T, ex.syncMapFact(st, fr, ci, args[1], tv.V[0])))
